@@ -27,8 +27,8 @@ pub fn node_a<'s, I: Kind<'s>, R: Er<'s, I>>(this: &mut Bld<'s, I, R>, g: &G) ->
         NoneOf(s) => I::p_none_of::<R>(s),
         Select(s) if this.borrow_prims => I::p_select_ref::<R>(s, if this.obs_state { SelFlavour::State } else if this.cap_spans { SelFlavour::Span } else { SelFlavour::Plain }),
         Select(s) => I::p_select::<R>(s, if this.obs_state { SelFlavour::State } else if this.cap_spans { SelFlavour::Span } else { SelFlavour::Plain }),
-        End => end::<I, Ex<R>>().map(|()| Val::Unit).cb(),
-        Empty => empty::<I, Ex<R>>().map(|()| Val::Unit).cb(),
+        End => end::<I, Ex<R>>().mb(|()| Val::Unit),
+        Empty => empty::<I, Ex<R>>().mb(|()| Val::Unit),
         Custom { take, ok, tag } => I::p_custom::<R>(*take, *ok, *tag),
         G::Ext { take, ok, tag } if this.explicit => {
             let g2 = G::Custom { take: *take, ok: *ok, tag: *tag };
@@ -37,15 +37,15 @@ pub fn node_a<'s, I: Kind<'s>, R: Er<'s, I>>(this: &mut Bld<'s, I, R>, g: &G) ->
         G::Ext { take, ok, tag } => I::p_ext::<R>(*take, *ok, *tag),
         Then(a, c) => {
             let (a, c) = (this.build(a), this.build(c));
-            a.then(c).map(|(a, c)| Val::pair(a, c)).cb()
+            a.then(c).mb(|(a, c)| Val::pair(a, c))
         }
         IgnoreThen(a, c) if this.explicit => {
             let (a, c) = (this.build(a), this.build(c));
-            a.then(c).map(|(_, c)| c).cb()
+            a.then(c).mb(|(_, c)| c)
         }
         ThenIgnore(a, c) if this.explicit => {
             let (a, c) = (this.build(a), this.build(c));
-            a.then(c).map(|(a, _)| a).cb()
+            a.then(c).mb(|(a, _)| a)
         }
         IgnoreThen(a, c) => {
             let (a, c) = (this.build(a), this.build(c));
@@ -60,16 +60,16 @@ pub fn node_a<'s, I: Kind<'s>, R: Er<'s, I>>(this: &mut Bld<'s, I, R>, g: &G) ->
             match ps.len() {
                 2 => {
                     let (b, a) = (ps.pop().unwrap(), ps.pop().unwrap());
-                    group((a, b)).map(|(a, b)| Val::List(vec![a, b])).cb()
+                    group((a, b)).mb(|(a, b)| Val::List(vec![a, b]))
                 }
                 3 => {
                     let (c, b, a) = (ps.pop().unwrap(), ps.pop().unwrap(), ps.pop().unwrap());
-                    group((a, b, c)).map(|(a, b, c)| Val::List(vec![a, b, c])).cb()
+                    group((a, b, c)).mb(|(a, b, c)| Val::List(vec![a, b, c]))
                 }
                 4 => {
                     let (d, c, b, a) =
                         (ps.pop().unwrap(), ps.pop().unwrap(), ps.pop().unwrap(), ps.pop().unwrap());
-                    group((a, b, c, d)).map(|(a, b, c, d)| Val::List(vec![a, b, c, d])).cb()
+                    group((a, b, c, d)).mb(|(a, b, c, d)| Val::List(vec![a, b, c, d]))
                 }
                 n => panic!("Group arity {}", n),
             }
@@ -78,7 +78,7 @@ pub fn node_a<'s, I: Kind<'s>, R: Er<'s, I>>(this: &mut Bld<'s, I, R>, g: &G) ->
             let ps: Vec<BP<'s, I, R>> = v.iter().map(|g| this.build(g)).collect();
             fn arr<'s, I: Kind<'s>, R: Er<'s, I>, const N: usize>(ps: Vec<BP<'s, I, R>>) -> BP<'s, I, R> {
                 let a: [BP<'s, I, R>; N] = ps.try_into().ok().unwrap();
-                group(a).map(|a: [Val; N]| Val::List(a.into())).cb()
+                group(a).mb(|a: [Val; N]| Val::List(a.into()))
             }
             match ps.len() {
                 1 => arr::<I, R, 1>(ps),
@@ -123,7 +123,7 @@ pub fn node_a<'s, I: Kind<'s>, R: Er<'s, I>>(this: &mut Bld<'s, I, R>, g: &G) ->
                 n => panic!("ChoiceArr arity {}", n),
             }
         }
-        OrNot(a) => this.build(a).or_not().map(Val::opt).cb(),
+        OrNot(a) => this.build(a).or_not().mb(Val::opt),
         Not(a) => {
             let a = this.build(a);
             I::p_not::<R>(a)
@@ -135,11 +135,11 @@ pub fn node_a<'s, I: Kind<'s>, R: Er<'s, I>>(this: &mut Bld<'s, I, R>, g: &G) ->
         Rewind(a) => this.build(a).rewind().cb(),
         Delim { inner, open, close } if this.explicit => {
             let (o, i, c) = (this.build(open), this.build(inner), this.build(close));
-            o.then(i).then(c).map(|((_, i), _)| i).cb()
+            o.then(i).then(c).mb(|((_, i), _)| i)
         }
         PaddedBy(a, p) if this.explicit => {
             let (a, p) = (this.build(a), this.build(p));
-            p.clone().then(a).then(p).map(|((_, a), _)| a).cb()
+            p.clone().then(a).then(p).mb(|((_, a), _)| a)
         }
         Delim { inner, open, close } => {
             let (o, i, c) = (this.build(open), this.build(inner), this.build(close));
